@@ -1,7 +1,7 @@
 (* "The state in force at an instant" versus the validator's trace: the final check of a condition by the model of the
    code ([check_cond], through _states_in_interval) and the executable reference ([cond_okb], through sample instants)
    both decide the dense-time statement [cond_ok]. *)
-From Coq Require Import List ZArith NArith QArith Qcanon Bool Lia Lra Lqa.
+From Coq Require Import List ZArith NArith QArith Qcanon Bool Lia Lqa.
 Import ListNotations.
 Require Import UPV.Core.Expr UPV.Core.Eval UPV.Core.Interp UPV.Planning.Problem UPV.Planning.Sem.
 Require Import UPV.Planning.Temporal UPV.Planning.TTValidate.
